@@ -540,6 +540,14 @@ class Inliner:
                     return fn, "class", ast.Name(id=recv if recv == "cls" else k[0], ctx=ast.Load())
                 if kind == "plain" and recv == "self":
                     return fn, "method", ast.Name(id="self", ctx=ast.Load())
+            # obj.m(..) where m is an extra plain method that exactly one class of this module defines and no other function or
+            # method of the module is called m: the receiver can only be an instance of that class (or the call fails either way)
+            if k is None and recv not in ("self", "cls"):
+                owners = [key for key in extras if key[0] is not None and key[1] == f.attr]
+                clash = any(isinstance(t, ast.FunctionDef) and t.name == f.attr and (c_.name, t.name) not in owners
+                            for c_ in self.tree.body if isinstance(c_, ast.ClassDef) for t in c_.body) or (None, f.attr) in extras
+                if len(owners) == 1 and not clash and self._kind(extras[owners[0]]) == "plain" and not f.attr.startswith("__"):
+                    return extras[owners[0]], "method", ast.Name(id=recv, ctx=ast.Load())
         return None
 
     # ---- binding --------------------------------------------------------
